@@ -27,6 +27,7 @@ def run(ctx):
     camp.py_saved, camp.py = camp.py, None  # the Python serializer allocates its own buffer
     camp.ser_events(vcases, buf_of=buf_of)
     camp.py = camp.py_saved
+    metadata(ctx)
     rej = camp.judge()
     codec.report(camp, ctx, rej, PROP, also=lambda clause, info: clause in ("ser.rc", "ser.size", "ser.guard") and info.get("ev") == "ser")
     codec.count_distinct(camp, ctx)
@@ -36,8 +37,59 @@ def run(ctx):
     ctx.cov["rule"] = ("every type of the universe x every target: exported extent and buffer size vs the TLA+ size arithmetic; serialization of zero/max/random/"
                        "invalid objects into buffers of size need, need-1, need+1, 0 (guard bytes checked); distinct = (event, target, type shape, class, hash)")
     ctx.assumptions += ["TLC + DsdlWire size arithmetic is the oracle"]
-    ctx.not_exercised("constants, port identifiers, names, array capacities and union option counts (metadata probe not built yet)")
+    ctx.not_exercised("C++ does not export names / array capacities and Python exports neither buffer size, names nor capacities: only what a target exports is compared")
+
+
+def metadata(ctx, only=None):
+    """names, versions, port-IDs, capacities, option counts and constants of every primitive kind (exact rationals, BigNat comparison in TLA+)"""
+    from .. import meta, tlc
+
+    defs = meta.build_universe(__import__("random").Random(7), ctx.quick)
+    probes = [("c", {}, "c", None), ("cpp", {}, "cpp14", "c++14"), ("cpp", {"std": "c++17"}, "cpp17", "c++17")]
+    records, stim = [], {}
+    for lang, opts, tag, std in probes:
+        if only and only != tag:
+            continue
+        res, log = meta.run_native_probe(ctx.scratch, lang, defs, opts, tag, std or "c++14")
+        if res is None:
+            ctx.violation("C05|%s|meta.probe_does_not_compile" % lang, "metadata probe does not compile against the generated %s headers: %s" % (tag, log[-600:]), {"target": tag, "ev": "metad"})
+            continue
+        _collect(defs, res, "c" if lang == "c" else "cpp", tag, records, stim)
+    if not only or only == "py":
+        _collect(defs, meta.run_py_probe(ctx, defs), "py", "py", records, stim)
+    for i, r in enumerate(records):
+        r["id"] = i + 1
+        r["case"] = 10 ** 7 + i
+        ctx.count()
+        ctx.distinct("metad|%s|%s" % (stim[i]["target"], stim[i]["name"]))
+    rej = tlc.validate_traces(ctx, "CodecTrace", records, batch=200)
+    for rid, clause in sorted(rej.items()):
+        info = stim[rid - 1]
+        rec = records[rid - 1]
+        bad = [bytes(c["name"]).decode() for c, o in zip(rec["exp"]["consts"], rec["obs"]["consts"])] if clause == "meta.const" else []
+        ctx.violation("C05|%s|%s|%s" % (info["target"].rstrip("0123456789"), clause, info["name"] if clause != "meta.const" else "consts-of-" + info["name"]),
+                      "%s for %s on %s (constants in this definition: %s)" % (clause, info["name"], info["target"], ",".join(bad)),
+                      {"ev": "metad", "target": info["target"], "name": info["name"], "observed": rec["obs"]})
+    if records:
+        ctx.sample({"metadata_record": {"target": stim[0]["target"], "name": stim[0]["name"], "exp_consts": [bytes(c["name"]).decode() for c in records[0]["exp"]["consts"]],
+                                         "obs": records[0]["obs"]}})
+    ctx.cov["metadata_definitions"] = len(defs)
+
+
+def _collect(defs, res, lang, tag, records, stim):
+    from .. import meta
+
+    k = 0
+    for d in defs:
+        for suffix, desc, consts in meta.parts(d):
+            if k < len(res):
+                stim[len(records)] = {"target": tag, "name": "%s.%s%s.%d.%d" % (d.ns, d.name, "." + suffix if suffix else "", d.ver[0], d.ver[1])}
+                records.append(meta.to_record(d, suffix, desc, consts, res[k], lang))
+            k += 1
 
 
 def replay(ctx, case):
+    if case.get("ev") == "metad":
+        metadata(ctx, only=case["target"])
+        return
     codec.replay_generic(ctx, case, PROP)
